@@ -886,8 +886,10 @@ def _rank(A):
 
 
 def jobs(tier, seed):
+  from harness import selftest  # pylint: disable=g-import-not-at-top
   thorough = tier == 'thorough'
-  out = []
+  out = [Job('engine_selftest_%s' % w, selftest.validate, dict(which=w),
+             timeout=900, cost=5) for w in ('ntheory', 'linalg')]
   kmax = 10 if not thorough else 16
   for fn in ('Inverse2exp', 'InverseSqrt2exp', 'Sqrt2exp'):
     for k in range(0, kmax + 1):
